@@ -402,7 +402,7 @@ func c03(c *Ctx) {
 			})
 			okDec, _ = g.DominatedByEdges(x, func(e *GEdge) bool {
 				return edgeImplies(e, func(cnd ast.Expr, pol int) bool {
-					nn, ok := nilCmp(pinfo, cnd, pol, func(y ast.Expr) bool { v, isV := objOf(pinfo, y).(*types.Var); return isV && v.Name() == "err" })
+					nn, ok := nilCmp(pinfo, cnd, pol, func(y ast.Expr) bool { return isErrVar(pinfo, y) })
 					return ok && !nn
 				})
 			})
